@@ -41,6 +41,17 @@ def run(ctx):
     for i in range(10 if quick else 100):
         a, b, d = gen.gen_macro_program(random.Random(rng.getrandbits(48)))
         progs.append(("macro%d" % i, a, ["-fyield-support"] if d["yield"] else []))
+    # constructions that iterate over sets of identity-hashed objects: waits on regexes (several rejecting transitions are
+    # re-pointed), case programs, and near-ambiguous joins whose accept / reject verdict must not depend on the iteration order
+    for i in range(25 if quick else 300):
+        p_, s_, f_ = gen.gen_wait_program(random.Random(rng.getrandbits(48)))
+        progs.append(("wait%d" % i, s_, f_))
+    for i in range(15 if quick else 200):
+        p_, s_, f_ = gen.gen_case_program(random.Random(rng.getrandbits(48)))
+        progs.append(("case%d" % i, s_, f_))
+    for i in range(40 if quick else 400):
+        p_, s_, t_ = gen.gen_ambig_candidate(random.Random(rng.getrandbits(48)))
+        progs.append(("amb%d" % i, s_, []))
     jobs = [{"name": n, "src": s, "flags": [rng.choice(["-O1", "-O3"])] + [f for f in fl if not f.startswith("-O")]} for n, s, fl in progs]
     # (a) reference: each program alone in a fresh process would cost ~0.4 s each; a fresh process per GROUP of 1 is used for a
     #     sample, the others are compiled in a fresh process in their own order
